@@ -499,9 +499,28 @@ Fixpoint nostk (m : ms) : bool * bool :=
   | MOrC l r => (true, snd (nostk l) && (fst (nostk l) || snd (nostk r)))
   | MOrD l r => (fst (nostk l) || fst (nostk r), snd (nostk l) && (fst (nostk l) || snd (nostk r)))
   | MOrI l r => (fst (nostk l) && fst (nostk r), snd (nostk l) && snd (nostk r))
-  | MThresh _ xs =>
-    ((fix go (l : list ms) : bool := match l with [] => false | x :: r => fst (nostk x) || go r end) xs, false)
+  | MThresh k xs =>
+    (* dissatisfaction: some child is never dissatisfied. satisfaction: fewer than k children can
+       ever be satisfied (k <= n: the satisfier satisfies exactly k children) *)
+    ((fix go (l : list ms) : bool := match l with [] => false | x :: r => fst (nostk x) || go r end) xs,
+     (k <=? N.of_nat (length xs))
+     && (N.of_nat ((fix cnt (l : list ms) : nat :=
+                      match l with [] => O | x :: r => Nat.add (if snd (nostk x) then O else 1%nat) (cnt r) end) xs) <? k))
   | _ => (false, false)
+  end.
+
+(* what the constructors and the context rules guarantee and typing does not: Threshold::new's
+   k <= n for thresh, multi_a / sortedmulti_a only in Tapscript *)
+Fixpoint ext_struct_ok (c : xctx) (m : ms) : bool :=
+  match m with
+  | MAlt x | MSwap x | MCheck x | MDupIf x | MVerify x | MNonZero x | MZeroNotEqual x => ext_struct_ok c x
+  | MAndV x y | MAndB x y | MOrB x y | MOrD x y | MOrC x y | MOrI x y => ext_struct_ok c x && ext_struct_ok c y
+  | MAndOr x y z => ext_struct_ok c x && ext_struct_ok c y && ext_struct_ok c z
+  | MThresh k xs =>
+    (k <=? N.of_nat (length xs))
+    && (fix go (l : list ms) : bool := match l with [] => true | x :: r => ext_struct_ok c x && go r end) xs
+  | MMultiA _ _ | MSortedMultiA _ _ => xc_schnorr c
+  | _ => true
   end.
 
 (* [ext_safe fx c m]: every construct whose rule needs a repair is either repaired by [fx] or
@@ -527,3 +546,33 @@ Fixpoint ext_safe (fx : fixes) (c : xctx) (m : ms) : bool :=
           match l with [] => true | x :: r => dt x && ext_safe fx c x && go r end) xs
   | _ => true
   end.
+
+(* ------------------------------------------------------------------ executed opcodes (Proofs/ExtOps.v)
+   [ast_cms m]: over all paths through the encoded script, the keys counted by executed
+   CHECKMULTISIGs (consensus adds them to the opcode count). *)
+Fixpoint ast_cms (m : ms) : N :=
+  match m with
+  | MMulti _ ks | MSortedMulti _ ks => N.of_nat (length ks)
+  | MAlt x | MSwap x | MCheck x | MDupIf x | MVerify x | MNonZero x | MZeroNotEqual x => ast_cms x
+  | MAndV x y | MAndB x y | MOrB x y | MOrD x y | MOrC x y => ast_cms x + ast_cms y
+  | MOrI x y => N.max (ast_cms x) (ast_cms y)
+  | MAndOr a b c => ast_cms a + N.max (ast_cms c) (ast_cms b)
+  | MThresh _ xs => (fix go (l : list ms) : N := match l with [] => 0 | x :: r => ast_cms x + go r end) xs
+  | _ => 0
+  end.
+
+(* multi has at most 20 keys (MAX_PUBKEYS_PER_MULTISIG, enforced by the Threshold type) *)
+Fixpoint multi_small (m : ms) : bool :=
+  match m with
+  | MMulti _ ks | MSortedMulti _ ks => Nat.leb (length ks) 20
+  | MAlt x | MSwap x | MCheck x | MDupIf x | MVerify x | MNonZero x | MZeroNotEqual x => multi_small x
+  | MAndV x y | MAndB x y | MOrB x y | MOrD x y | MOrC x y | MOrI x y => multi_small x && multi_small y
+  | MAndOr a b c => multi_small a && multi_small b && multi_small c
+  | MThresh _ xs => (fix go (l : list ms) : bool := match l with [] => true | x :: r => multi_small x && go r end) xs
+  | _ => true
+  end.
+
+(* the class on which the all-paths bound is within the library's figure *)
+Definition ops_covered (fx : fixes) (c : xctx) (m : ms) : bool :=
+  match sat_data (ext_of_gen fx c m) with Some d => ast_cms m <=? sd_eops d | None => false end.
+
